@@ -211,12 +211,12 @@ impl Observer for ErrObs {
 
 // ------------------------------------------------------------------ planting
 
-const MESSAGES: [&str; 7] = ["m1", "two words", "oops7", "a-b_c", "\\${x0}", "say \\\"hi\\\"", "a#b"];
+const MESSAGES: [&str; 9] = ["m1", "two words", "oops7", "a-b_c", "\\${x0}", "say \\\"hi\\\"", "a#b", "ends with a line break\\n", "tail\\r\\n"];
 
 fn raw_line(rng: &mut Rng, n_arrays: usize) -> String {
     let msg = {
         let m = *rng.pick(&MESSAGES);
-        if m.contains(' ') || m.contains('#') || m.contains('"') { format!("\"{}\"", m) } else { m.to_string() }
+        if m.contains(' ') || m.contains('#') || m.contains('"') || m.contains('\\') { format!("\"{}\"", m) } else { m.to_string() }
     };
     match rng.below(17) {
         16 => format!("set_error {}", msg),
